@@ -77,8 +77,21 @@ func propC03(c *Ctx) {
 				Desc: "Decode(Encode(m)) differs from m", Input: line, Expected: clip("ok " + want), Actual: clip(dr.String())})
 		}
 	}
+	// just outside the domain: what the encoder does there is no part of C03, but the model has to do the same
+	// (the refusals are the guards every theorem's domain predicate mirrors)
+	if c.replay == nil {
+		for i := 0; i < c.n(400, 8000); i++ {
+			sx := g.msgOutside()
+			line := "enc msg " + sx.String()
+			if len(line) > 30000 {
+				continue
+			}
+			er := encodeMsgRes(buildMsg(sx))
+			corr = append(corr, corrCase{line: line, goRes: er.String(), nontr: true, tags: []string{"op:enc-outside-domain", "encode:" + er.kind}})
+		}
+	}
 	sc := c.suite("codec-model-vs-impl", "correspondence",
-		"same messages: Go Encode bytes = Lean model bytes; Go Decode value = Lean model value; non-trivial = >= 1 payload")
+		"same messages: Go Encode bytes = Lean model bytes; Go Decode value = Lean model value; plus messages just outside the encodable domain (empty mandatory data, selector address length not matching its type, TLV attribute without value, SPI longer than 255, no attributes / selectors / transforms, version nibble > 15): Go Encode outcome (err or the octets) = model outcome; non-trivial = >= 1 payload")
 	c.correspond(sc, corr)
 }
 
@@ -224,6 +237,9 @@ func propC13(c *Ctx) {
 		sx := g.msg()
 		np := len(sx.List[2].List)
 		k := 1 + g.r.Intn(4)
+		if i%25 == 0 {
+			k = 5 + g.r.Intn(60) // many unsupported payloads in one message
+		}
 		var ins []int
 		var els []chainElem
 		for j := 0; j < k; j++ {
@@ -232,7 +248,7 @@ func propC13(c *Ctx) {
 			if g.chance(0.7) {
 				t = uint8(49 + g.r.Intn(207))
 			}
-			els = append(els, chainElem{typ: t, crit: g.chance(0.15), resv: uint8(g.r.Intn(128)), body: g.bytes(g.size(1024))})
+			els = append(els, chainElem{typ: t, crit: k <= 4 && g.chance(0.15) || k > 4 && g.chance(0.01), resv: uint8(g.r.Intn(128)), body: g.bytes(g.size(1024) % (1 + 4096/k))})
 		}
 		// sort positions ascending (stable enough: simple insertion sort)
 		for a := 1; a < len(ins); a++ {
@@ -257,7 +273,7 @@ func propC13(c *Ctx) {
 func propC12(c *Ctx) {
 	g := NewGen(c.seed)
 	s := c.suite("decode-encode-decode", "oracle",
-		"mutations of valid message encodings (reserved bits, flags, lengths, type codes, nested attribute encodings), valid encodings themselves, and every implemented payload type with every body length 0..12: whenever Decode accepts and Encode succeeds, Decode(Encode(Decode(b))) = Decode(b) and a further Encode reproduces the bytes; canonical encodings must re-encode byte-identically; non-trivial = the decoder accepted the input and it holds >= 1 payload; distinct by input")
+		"mutations of valid message encodings (reserved bits, flags, lengths, type codes, nested attribute encodings), valid encodings themselves (written by the library and, independently of it, by the RFC 7296 reference encoder of the C05 oracle: canonical and with sender liberties), and every implemented payload type with every body length 0..12: whenever Decode accepts and Encode succeeds, Decode(Encode(Decode(b))) = Decode(b) and a further Encode reproduces the bytes; canonical encodings must re-encode byte-identically; non-trivial = the decoder accepted the input and it holds >= 1 payload; distinct by input")
 	s2 := c.suite("eap-unmarshal-marshal-unmarshal", "oracle",
 		"same for EAP packets: Unmarshal, Marshal, Unmarshal on valid and mutated EAP encodings (all methods, AKA' attributes in any wire order incl. unknown types); non-trivial = accepted input with method data")
 	var corr []corrCase
@@ -266,11 +282,30 @@ func propC12(c *Ctx) {
 		var in []byte
 		canonical := false
 		tag := "mut"
-		if i%6 == 0 {
-			in = g.baseFor("msg")
-			canonical = true
-			tag = "canonical"
-		} else {
+		// datagrams arrive from peers: half of the bases are written by the independent RFC 7296 encoder of the C05
+		// oracle (canonical, or using the liberties a sender has), not by the library under test
+		refBase := func(liberal bool) []byte {
+			for {
+				sx := g.msg()
+				var libs []payLib
+				if liberal {
+					libs = deriveLibs(sx, 1+uint64(g.r.Int63()))
+				}
+				if b, err := refEncodeMsg(sx, libs); err == nil {
+					return b
+				}
+			}
+		}
+		switch i % 6 {
+		case 0:
+			in, canonical, tag = g.baseFor("msg"), true, "canonical"
+		case 1:
+			in, canonical, tag = refBase(false), true, "canonical-independent-encoder"
+		case 2:
+			in, tag = refBase(true), "liberal-independent-encoder"
+		case 3:
+			in = g.mutate(refBase(g.chance(0.5)))
+		default:
 			in = g.mutate(g.baseFor("msg"))
 		}
 		if len(in) > 70000 {
